@@ -204,6 +204,7 @@ def run(tier, rep):
                          "alpha": float(getattr(dissimilarity, "alpha", float("nan"))), "beta": float(getattr(dissimilarity, "beta", float("nan"))),
                          "delta_empty": float(dissimilarity.delta_empty) if dissimilarity is not None else None,
                          "cat_delta_empty": float(getattr(getattr(dissimilarity, "categorical_dissim", None), "delta_empty", float("nan"))),
+                         "pos_delta_empty": float(getattr(getattr(dissimilarity, "positional_dissim", None), "delta_empty", float("nan"))),
                          "cat_categories": (None if getattr(getattr(dissimilarity, "categorical_dissim", None), "categories", None) is None
                                             else list(dissimilarity.categorical_dissim.categories)),
                          "file_categories": list(self.categories),
@@ -245,7 +246,8 @@ def run(tier, rep):
         # structural: what the tool really passed to the API
         for cfg in seen_cfg:
             want = {"dissim": eff["dissim"], "cat": eff["cat"], "alpha": float(eff["alpha"]), "beta": float(eff["beta"]),
-                    "delta_empty": float(eff["delta_empty"]), "cat_delta_empty": float(eff["delta_empty"]), "sampler": eff["sampler"],
+                    "delta_empty": float(eff["delta_empty"]), "cat_delta_empty": float(eff["delta_empty"]),
+                    "pos_delta_empty": float(eff["delta_empty"]), "sampler": eff["sampler"],
                     "precision": float(eff["precision"]), "n_samples": int(eff["n_samples"]), "fast": True, "soft": False, "ground_truth": "all"}
             diff = {k: (cfg[k], want[k]) for k in want if cfg[k] != want[k]}
             # a category-aware dissimilarity must have been built from THIS file's categories
